@@ -552,7 +552,13 @@ def run_strings(env, case):
         env.require(exp, "reference rejects an unmodified %s proof (%s): reference and library disagree on the specified equation" % (base, why))
         classes.append("accept_base")
         zero_n = all(x == 0 for x in I.nv)
-        for m in case["muts"]:
+        all_inf = I.rounds > 0 and proof[:65 * I.rounds] == bytes(65 * I.rounds)
+        # on every base: a zero challenge base is refused (for n = 0 witnesses the proof does not depend on rho, so only the explicit check stands in the way) ...
+        muts = [{"kind": "rho_zero", "a": 0, "b": 0, "resolve": False}, {"kind": "rho_zero", "a": 1, "b": 0, "resolve": False}]
+        # ... and when every round point is infinity, so is a set sign bit on either half of the first round (the equation would still hold)
+        if all_inf:
+            muts += [{"kind": "inf_sign", "a": 0, "b": 0, "resolve": False}, {"kind": "inf_sign", "a": 0, "b": 1, "resolve": False}]
+        for m in muts + case["muts"]:
             inp, cls = apply_mut(I, inp0, m)
             classes += cls
             classes.append("mut:" + m["kind"])
@@ -572,7 +578,7 @@ def run_strings(env, case):
                 classes.append("accept_mutated" if exp else "reject:" + why)
             if m["kind"] == "rho_zero" and zero_n:
                 classes.append("rho_zero_on_zero_n")
-            if m["kind"] == "inf_sign" and proof[:65 * I.rounds] == bytes(65 * I.rounds) and I.rounds:
+            if m["kind"] == "inf_sign" and all_inf:
                 classes.append("inf_sign_on_all_inf")
         check_callbacks(env, "verification of candidate strings")
     finally:
@@ -712,7 +718,7 @@ def run_challenge(env, case):
 # ------------------------------------------------------------------ (e) generator lists
 @st.composite
 def gens_case(draw):
-    n = draw(st.one_of(st.integers(0, 256), st.integers(0, 12), st.sampled_from([0, 1, 2, 255, 256, 128, 127, 129, 16, 24])))
+    n = draw(st.one_of(st.integers(0, 256), st.integers(0, 12), st.sampled_from([0, 1, 2, 255, 256, 128, 127, 129, 16, 24]), st.sampled_from([0, 1, 256, 256])))
     return {"n": n, "k": draw(st.one_of(st.integers(0, 3), st.integers(0, 40), st.just(1))), "extra": draw(st.sampled_from([0, 1, 7, 33, 100]))}
 
 
